@@ -24,7 +24,9 @@ func TestPropDiffCLI(t *testing.T) {
 		u := gen.GenTable(t, gen.TableOpts{MaxCols: 4, MaxRows: evid.Scale(520, 800), Boundary: true, ForceUnique: true, ForcePK: true, NoSpecial: true}, "u")
 		shape := rapid.SampledFrom(shapes).Draw(t, "shape")
 		a, b := derive(t, u, shape)
-		subCLI.Check(t, Case{A: a, B: b, SameStore: true, Shape: shape})
+		// SameStore false: the first side is a CSV file given on the command line (it is ingested
+		// into a store of its own), the second a branch
+		subCLI.Check(t, Case{A: a, B: b, SameStore: rapid.IntRange(0, 2).Draw(t, "fileVsBranch") != 0, Shape: shape})
 	})
 }
 
@@ -37,15 +39,22 @@ func runCLI(c Case) (o evid.Outcome, err error) {
 	fa, _ := repo.WriteFile("a.csv", c.A.CSV(','))
 	fb, _ := repo.WriteFile("b.csv", c.B.CSV(','))
 	pk := strings.Join(c.A.PKNames(), ",")
-	if out, err := repo.Run("commit", "a", fa, "a", "-p", pk, "-n", "1"); err != nil {
-		return o, fmt.Errorf("HARNESS: commit a: %v (%s)", err, out)
+	if c.SameStore {
+		if out, err := repo.Run("commit", "a", fa, "a", "-p", pk, "-n", "1"); err != nil {
+			return o, fmt.Errorf("HARNESS: commit a: %v (%s)", err, out)
+		}
 	}
 	if out, err := repo.Run("commit", "b", fb, "b", "-p", pk, "-n", "1"); err != nil {
 		return o, fmt.Errorf("HARNESS: commit b: %v (%s)", err, out)
 	}
-	out, err := repo.Run("diff", "a", "b", "--no-gui")
+	args := []string{"diff", "a", "b", "--no-gui"}
+	if !c.SameStore {
+		args = []string{"diff", fa, "b", "--no-gui", "-p", pk}
+		o.Class("file-vs-branch")
+	}
+	out, err := repo.Run(args...)
 	if err != nil {
-		return o, fmt.Errorf("wrgl diff a b --no-gui: %v (%s)", err, out)
+		return o, fmt.Errorf("wrgl %s: %v (%s)", strings.Join(args, " "), err, out)
 	}
 	files, _ := filepath.Glob(filepath.Join(repo.Root, "DIFF_*.csv"))
 	if len(files) != 1 {
